@@ -152,6 +152,8 @@ def gen_whole(rng, n):
             p['Total Capital Cost'] = rng.choice([50, 120.5])
         if rng.random() < 0.3:
             p['Total O&M Cost'] = rng.choice([1, 4.5])
+        if rng.random() < 0.5:
+            geo.diversify(rng, p)
         cases.append(p)
     return cases
 
